@@ -8,6 +8,7 @@ from ..rules import decide_states
 from .. import terms
 
 ID = "C14"
+ANCHORS = 'tools.tomtom._p_values,tools.tomtom._merge_rc_results,tools.tomtom._p_value_backgrounds'.split(",")
 MIN_INSTANCES = 8
 EXPLANATION = (
     "LOOKUP-GUARD: the null-CDF lookup B_cdfs[nt, uint64(score-1)] is reached only on paths where score-1 >= 0 is implied by the "
